@@ -763,6 +763,9 @@ def run(ctx):
     # (C10.TYPE-PTR: a delete through the other kind's stale pointer is a double free)
     from . import c10 as _c10
     borrow(ctx, "C11", _c10.rule_type_ptr, tu)
+    # shared clause: the receiving buffers of the fetch methods are sized from the engine object's own copy of the script
+    # (C10.OWN): sized from the caller's live object they no longer match what the engine was initialised with
+    borrow(ctx, "C11", _c10.rule_own, ctx.py)
     lints.unused(ctx, "C11.PARAMS", ctx.py, (), ctx.cx)
     ctx.assume("int overflow of extent products for huge systems and IEEE division by zero are not decided")
     ctx.assume("the engine is driven through LibRDEngine (lifecycle-respecting call sequences); buffers handed to the "
